@@ -276,6 +276,7 @@ func runC11(c *eng.Ctx) {
 	// ---- shared with C03 ---------------------------------------------------------------------------------------------------------------
 	c.Rule("SYMMETRY", "aggregation.seriesAggregator.GetAggregator{target range = image of the source range}", func() { aggregatorTargetRange(c) })
 
+	c.Rule("GUARD", "tsdb/tblstore/metricsdata.fieldReader.GetFieldData{only the requested field}", func() { fieldDataOnlyForHeldField(c) })
 	c.Rule("ANCHOR", mfT+".FlushSeries{startAt}", func() { flusherAnchors(c) })
 	c.Rule("LAYOUT", "tsdb/tblstore/metricsdata{block footer}", func() { blockFooter(c) })
 	c.Rule("EXHAUSTIVE", "series/field{type tables}", func() { fieldTypeTables(c) })
